@@ -415,49 +415,46 @@ Proof. intros. unfold render_records. rewrite map_app, concat_app. reflexivity. 
 Lemma render_records_cons : forall r rs, render_records (r :: rs) = render_record r ++ render_records rs.
 Proof. reflexivity. Qed.
 
-Lemma write_loop_const : forall cs n, n <> O -> const_count n cs ->
-  write_loop n cs = (render_records (flat_map chunk_records cs), false).
+Lemma write_loop_const : forall cs n, const_count n cs ->
+  write_loop (Some n) cs = (render_records (flat_map chunk_records cs), false).
 Proof.
-  induction cs as [|c r IH]; intros n Hn Hc; [reflexivity|].
+  induction cs as [|c r IH]; intros n Hc; [reflexivity|].
   inversion Hc as [|? ? Hc1 Hc2]; subst. cbn [write_loop flat_map].
-  destruct (Nat.eqb (nmetrics c) 0) eqn:E0; [apply Nat.eqb_eq in E0; congruence|].
-  rewrite Nat.eqb_refl. cbn [negb]. rewrite (IH (nmetrics c) Hn Hc2).
+  rewrite Nat.eqb_refl. cbn [negb]. rewrite (IH (nmetrics c) Hc2).
   rewrite render_records_app. reflexivity.
 Qed.
 
-(* constant non-zero metric count: header line of the first chunk's keys, then
-   the rows of every sample of every chunk in order; no error *)
-Lemma write_const : forall c cs n, n <> O -> const_count n (c :: cs) ->
+(* constant metric count: header line of the first chunk's keys, then the rows
+   of every sample of every chunk in order; no error *)
+Lemma write_const : forall c cs n, const_count n (c :: cs) ->
   write_csv (c :: cs) = (render_records (field_names c :: flat_map chunk_records (c :: cs)), false).
 Proof.
-  intros c cs n Hn Hc. inversion Hc as [|? ? Hc1 Hc2]; subst.
-  unfold write_csv. cbn [write_loop Nat.eqb].
-  rewrite (write_loop_const cs (nmetrics c) Hn Hc2).
+  intros c cs n Hc. inversion Hc as [|? ? Hc1 Hc2]; subst.
+  unfold write_csv. cbn [write_loop].
+  rewrite (write_loop_const cs (nmetrics c) Hc2).
   rewrite render_records_cons. cbn [flat_map]. rewrite render_records_app. reflexivity.
 Qed.
 
-Lemma write_loop_error : forall pre c post n, n <> O -> const_count n pre -> nmetrics c <> n ->
-  write_loop n (pre ++ c :: post) = (render_records (flat_map chunk_records pre), true).
+Lemma write_loop_error : forall pre c post n, const_count n pre -> nmetrics c <> n ->
+  write_loop (Some n) (pre ++ c :: post) = (render_records (flat_map chunk_records pre), true).
 Proof.
-  induction pre as [|p pre IH]; intros c post n Hn Hc Hd.
+  induction pre as [|p pre IH]; intros c post n Hc Hd.
   - cbn [app write_loop flat_map].
-    destruct (Nat.eqb n 0) eqn:E0; [apply Nat.eqb_eq in E0; congruence|].
     destruct (Nat.eqb n (nmetrics c)) eqn:E1; [apply Nat.eqb_eq in E1; congruence|]. reflexivity.
   - inversion Hc as [|? ? Hc1 Hc2]; subst. cbn [app write_loop flat_map].
-    destruct (Nat.eqb (nmetrics p) 0) eqn:E0; [apply Nat.eqb_eq in E0; congruence|].
-    rewrite Nat.eqb_refl. cbn [negb]. rewrite (IH c post (nmetrics p) Hn Hc2 Hd).
+    rewrite Nat.eqb_refl. cbn [negb]. rewrite (IH c post (nmetrics p) Hc2 Hd).
     rewrite render_records_app. reflexivity.
 Qed.
 
-(* a chunk whose metric count differs from the (non-zero) count so far: an error,
-   and exactly the header and the rows of the earlier chunks have been written *)
-Lemma write_error : forall p pre c post n, n <> O -> const_count n (p :: pre) -> nmetrics c <> n ->
+(* a chunk whose metric count differs from the count so far: an error, and exactly
+   the header and the rows of the earlier chunks have been written *)
+Lemma write_error : forall p pre c post n, const_count n (p :: pre) -> nmetrics c <> n ->
   write_csv ((p :: pre) ++ c :: post) = (fst (write_csv (p :: pre)), true).
 Proof.
-  intros p pre c post n Hn Hc Hd. rewrite (write_const p pre n Hn Hc). cbn [fst].
+  intros p pre c post n Hc Hd. rewrite (write_const p pre n Hc). cbn [fst].
   inversion Hc as [|? ? Hc1 Hc2]; subst.
-  unfold write_csv. cbn [app write_loop Nat.eqb].
-  rewrite (write_loop_error pre c post (nmetrics p) Hn Hc2 Hd).
+  unfold write_csv. cbn [app write_loop].
+  rewrite (write_loop_error pre c post (nmetrics p) Hc2 Hd).
   rewrite render_records_cons. cbn [flat_map]. rewrite render_records_app. reflexivity.
 Qed.
 
@@ -531,16 +528,14 @@ Definition dump_spec (n : nat) (cs : list chunk) : text * list text :=
       then (rows_of g, map file_of gs) else ([], map file_of (g :: gs))
   end.
 
-Lemma dump_loop_spec : forall cs n, n <> O -> Forall (fun c => nmetrics c <> O) cs ->
-  dump_loop n cs = dump_spec n cs.
+Lemma dump_loop_spec : forall cs n, dump_loop (Some n) cs = dump_spec n cs.
 Proof.
-  induction cs as [|c r IH]; intros n Hn Hnz; [reflexivity|].
-  inversion Hnz as [|? ? Hc Hr]; subst.
+  induction cs as [|c r IH]; intros n; [reflexivity|].
   (* what continuing with c's own count gives *)
-  assert (forall t fs, dump_loop (nmetrics c) r = (t, fs) ->
+  assert (forall t fs, dump_loop (Some (nmetrics c)) r = (t, fs) ->
           exists g gs, group_by_count (c :: r) = (c :: g) :: gs /\
                        render_records (chunk_records c) ++ t = rows_of (c :: g) /\ fs = map file_of gs) as Hcont.
-  { intros t fs Hd. rewrite (IH (nmetrics c) Hc Hr) in Hd. unfold dump_spec in Hd.
+  { intros t fs Hd. rewrite (IH (nmetrics c)) in Hd. unfold dump_spec in Hd.
     cbn [group_by_count]. destruct (group_by_count r) as [|[|c' g] gs] eqn:Eg.
     - inversion Hd; subst. exists [], []. split; [reflexivity|]. rewrite (rows_of_cons c). split; reflexivity.
     - (* impossible: groups are never empty *)
@@ -552,8 +547,7 @@ Proof.
       + inversion Hd; subst. exists [], ((c' :: g) :: gs). split; [reflexivity|].
         rewrite (rows_of_cons c). split; reflexivity. }
   cbn [dump_loop].
-  destruct (Nat.eqb n 0) eqn:E0; [apply Nat.eqb_eq in E0; congruence|].
-  destruct (dump_loop (nmetrics c) r) as [t fs] eqn:Ed.
+  destruct (dump_loop (Some (nmetrics c)) r) as [t fs] eqn:Ed.
   destruct (Hcont t fs eq_refl) as [g [gs [Eg [Et Efs]]]].
   unfold dump_spec. rewrite Eg. cbn [hd].
   destruct (Nat.eqb n (nmetrics c)) eqn:E1.
@@ -563,14 +557,13 @@ Proof.
     rewrite <- app_assoc. reflexivity.
 Qed.
 
-(* all chunks have metrics: one file per run of equal metric count, each made of
-   the header of its first chunk and the rows of its chunks *)
-Lemma dump_files : forall cs, Forall (fun c => nmetrics c <> O) cs ->
-  dump_csv cs = map file_of (group_by_count cs).
+(* one file per run of equal metric count, each made of the header of its first
+   chunk and the rows of its chunks *)
+Lemma dump_files : forall cs, dump_csv cs = map file_of (group_by_count cs).
 Proof.
-  intros [|c r] Hnz; [reflexivity|]. inversion Hnz as [|? ? Hc Hr]; subst.
-  unfold dump_csv. cbn [dump_loop Nat.eqb].
-  rewrite (dump_loop_spec r (nmetrics c) Hc Hr). unfold dump_spec.
+  intros [|c r]; [reflexivity|].
+  unfold dump_csv. cbn [dump_loop].
+  rewrite (dump_loop_spec r (nmetrics c)). unfold dump_spec.
   cbn [group_by_count]. destruct (group_by_count r) as [|[|c' g] gs] eqn:Eg.
   - cbn [map]. rewrite file_of_cons, rows_of_cons. unfold rows_of. cbn [flat_map].
     rewrite <- app_assoc. reflexivity.
@@ -713,18 +706,22 @@ Qed.
 Definition table_docs (ks : list bytes) (rows : list (list Z)) : list doc :=
   map (fun zs => combine ks (map VInt64 zs)) rows.
 
+Lemma record_ok_nonempty : forall r, record_ok r = true -> length r <> O.
+Proof. intros [|f r] H; [discriminate|]. discriminate. Qed.
+
 Lemma roundtrip_docs : forall c cs n,
-  n <> O -> const_count n (c :: cs) ->
+  const_count n (c :: cs) ->
   Forall (fun c' => has_date c' = false) (c :: cs) ->
   record_ok (field_names c) = true ->
   Forall (Forall (fun z => in_i64 z = true)) (int_rows (c :: cs)) ->
   cv_docs (fst (write_csv (c :: cs))) = (table_docs (field_names c) (int_rows (c :: cs)), CvOk).
 Proof.
-  intros c cs n Hn Hc Hd Hk Hv.
-  rewrite (write_const c cs n Hn Hc). cbn [fst].
+  intros c cs n Hc Hd Hk Hv.
+  rewrite (write_const c cs n Hc). cbn [fst].
   rewrite (all_rows_ints (c :: cs) Hd).
   assert (length (field_names c) = n) as Hkl.
   { unfold field_names. rewrite map_length. inversion Hc; subst. reflexivity. }
+  assert (n <> O) as Hn by (rewrite <- Hkl; apply record_ok_nonempty; exact Hk).
   pose proof (int_rows_lengths (c :: cs) n Hc) as Hlen.
   rewrite cv_docs_render; [|exact Hk|].
   - f_equal. unfold table_docs. rewrite map_map. apply map_ext_in. intros zs Hin.
@@ -745,18 +742,17 @@ Proof.
 Qed.
 
 Lemma write_all : forall c cs n,
-  n <> O -> Forall (fun c' => nmetrics c' = n) (c :: cs) ->
+  Forall (fun c' => nmetrics c' = n) (c :: cs) ->
   write_csv (c :: cs) = (render_records (field_names c :: flat_map chunk_records (c :: cs)), false) /\
   (forall c' i, record_of c' i =
                 map (fun tv => cell (fst tv) (snd tv)) (combine (chunk_types c') (sample_row c' i))) /\
   (forall t v, t <> MDate -> cell t v = render_int v).
 Proof.
-  intros c cs n Hn Hc. split; [exact (write_const c cs n Hn Hc)|].
+  intros c cs n Hc. split; [exact (write_const c cs n Hc)|].
   split; [exact record_of_cells|exact cell_int].
 Qed.
 
 Lemma dump_all : forall cs,
-  Forall (fun c => nmetrics c <> O) cs ->
   dump_csv cs = map file_of (group_by_count cs) /\
   concat (group_by_count cs) = cs /\
   Forall (fun g => g <> [] /\ Forall (fun c => nmetrics c = nmetrics (hd (mkChunk [] 0 None None []) g)) g)
@@ -764,22 +760,22 @@ Lemma dump_all : forall cs,
   adjacent_differ (group_by_count cs) /\
   flat_map (fun g => flat_map chunk_records g) (group_by_count cs) = flat_map chunk_records cs.
 Proof.
-  intros cs Hnz. destruct (gbc_spec cs) as [H1 [H2 H3]].
-  split; [exact (dump_files cs Hnz)|]. split; [exact H1|]. split; [exact H2|]. split; [exact H3|].
+  intros cs. destruct (gbc_spec cs) as [H1 [H2 H3]].
+  split; [exact (dump_files cs)|]. split; [exact H1|]. split; [exact H2|]. split; [exact H3|].
   rewrite flat_map_concat, H1. reflexivity.
 Qed.
 
 Lemma roundtrip_all : forall c cs n,
-  n <> O -> Forall (fun c' => nmetrics c' = n) (c :: cs) ->
+  Forall (fun c' => nmetrics c' = n) (c :: cs) ->
   Forall (fun c' => has_date c' = false) (c :: cs) ->
   record_ok (field_names c) = true ->
   Forall (Forall (fun z => in_i64 z = true)) (int_rows (c :: cs)) ->
   snd (write_csv (c :: cs)) = false /\
   cv_docs (fst (write_csv (c :: cs))) = (table_docs (field_names c) (int_rows (c :: cs)), CvOk).
 Proof.
-  intros c cs n Hn Hc Hd Hk Hv. split.
-  - rewrite (write_const c cs n Hn Hc). reflexivity.
-  - exact (roundtrip_docs c cs n Hn Hc Hd Hk Hv).
+  intros c cs n Hc Hd Hk Hv. split.
+  - rewrite (write_const c cs n Hc). reflexivity.
+  - exact (roundtrip_docs c cs n Hc Hd Hk Hv).
 Qed.
 
 (* ================================================================== composition with the FTDC codec (C08) *)
@@ -906,7 +902,7 @@ Qed.
 (* the round trip through the real pipeline: WriteCSV, ConvertFromCSV into a
    writer that does not fail, then the FTDC reader *)
 Theorem roundtrip_reread : forall c cs n bucket nows,
-  n <> O -> Forall (fun c' => nmetrics c' = n) (c :: cs) ->
+  Forall (fun c' => nmetrics c' = n) (c :: cs) ->
   Forall (fun c' => has_date c' = false) (c :: cs) ->
   record_ok (field_names c) = true ->
   Forall (Forall (fun z => in_i64 z = true)) (int_rows (c :: cs)) ->
@@ -920,8 +916,8 @@ Theorem roundtrip_reread : forall c cs n bucket nows,
     docs_eqb (dc_docs d) (table_docs (field_names c) (int_rows (c :: cs))) = true /\
     dc_sizes d = expected_sizes bucket (table_docs (field_names c) (int_rows (c :: cs))).
 Proof.
-  intros c cs n bucket nows Hn Hc Hd Hk Hv Hkeys Hn32 Hsmall Hb Hl.
-  pose proof (roundtrip_docs c cs n Hn Hc Hd Hk Hv) as Hcv.
+  intros c cs n bucket nows Hc Hd Hk Hv Hkeys Hn32 Hsmall Hb Hl.
+  pose proof (roundtrip_docs c cs n Hc Hd Hk Hv) as Hcv.
   set (ks := field_names c) in *. set (rows := int_rows (c :: cs)) in *.
   assert (length ks = n) as Hkl.
   { unfold ks, field_names. rewrite map_length. inversion Hc; subst. reflexivity. }
@@ -949,6 +945,7 @@ Definition ex_cA : chunk :=   (* keys  a,b  and  q QUOTE LF  ; two samples with 
   mkChunk [(ex_metric [97; 44; 98]%N MInt64, [1; -2]%Z); (ex_metric [113; 34; 10]%N MDouble, [2 ^ 63 - 1; - 2 ^ 63]%Z)] 2 None None [].
 Definition ex_cB : chunk :=   (* same count, keys " lead" and "" *)
   mkChunk [(ex_metric [32; 108]%N MBool, [1]%Z); (ex_metric [] MTs, [0]%Z)] 1 None None [].
+Definition ex_cZ : chunk := mkChunk [] 2 None None [].   (* two samples of a document without metrics *)
 Definition ex_cC : chunk :=   (* one metric *)
   mkChunk [(ex_metric [122]%N MInt32, [7; 8; 9]%Z)] 3 None None [].
 
@@ -964,15 +961,45 @@ Lemma csv_example :
   int_rows [ex_cA; ex_cB] = [[1; 2 ^ 63 - 1]; [-2; - 2 ^ 63]; [1; 0]]%Z /\
   firstn 14 (fst (write_csv [ex_cA; ex_cB])) = [34; 97; 44; 98; 34; 44; 34; 113; 34; 34; 10; 34; 10; 49]%N /\
   (* hypotheses of C18_write_error and C18_dump: a count change after two chunks, then back *)
-  nmetrics ex_cC <> 2%nat /\ Forall (fun c => nmetrics c <> O) [ex_cA; ex_cB; ex_cC; ex_cA] /\
+  nmetrics ex_cC <> 2%nat /\
   snd (write_csv [ex_cA; ex_cB; ex_cC; ex_cA]) = true /\
   group_by_count [ex_cA; ex_cB; ex_cC; ex_cA] = [[ex_cA; ex_cB]; [ex_cC]; [ex_cA]] /\
-  length (dump_csv [ex_cA; ex_cB; ex_cC; ex_cA]) = 3%nat.
+  length (dump_csv [ex_cA; ex_cB; ex_cC; ex_cA]) = 3%nat /\
+  (* a chunk without metrics followed by one with metrics: an error / a new file *)
+  write_csv [ex_cZ; ex_cA] = ([10; 10; 10]%N, true) /\ length (dump_csv [ex_cZ; ex_cA]) = 2%nat.
 Proof.
   split; [repeat constructor|]. split; [repeat constructor|]. split; [vm_compute; reflexivity|].
   split; [repeat constructor|]. split; [repeat constructor|].
   split; [repeat constructor; unfold small; vm_compute; reflexivity|].
   split; [vm_compute; reflexivity|]. split; [vm_compute; reflexivity|].
-  split; [vm_compute; discriminate|]. split; [repeat constructor; vm_compute; discriminate|].
-  split; [vm_compute; reflexivity|]. split; [vm_compute; reflexivity|]. vm_compute; reflexivity.
+  split; [vm_compute; discriminate|].
+  split; [vm_compute; reflexivity|]. split; [vm_compute; reflexivity|]. split; [vm_compute; reflexivity|].
+  split; vm_compute; reflexivity.
+Qed.
+
+(* ---- the two known findings (behaviour of encoding/csv) as statements about the
+   faithful model: outside [record_ok] the round trip fails ---- *)
+Definition ex_cE : chunk :=   (* one metric with the empty key *)
+  mkChunk [(ex_metric [] MInt64, [5; 6]%Z)] 2 None None [].
+Definition ex_cR : chunk :=   (* one metric whose key is  a CR LF b *)
+  mkChunk [(ex_metric [97; 13; 10; 98]%N MInt64, [1; 2]%Z)] 2 None None [].
+
+Lemma lone_empty_key_refuted :
+  record_ok (field_names ex_cE) = false /\
+  write_csv [ex_cE] = ([10; 53; 10; 54; 10]%N, false) /\
+  cv_docs (fst (write_csv [ex_cE])) = ([[([53]%N, VInt64 6)]], CvOk) /\
+  cv_docs (fst (write_csv [ex_cE])) <> (table_docs (field_names ex_cE) (int_rows [ex_cE]), CvOk).
+Proof.
+  split; [vm_compute; reflexivity|]. split; [vm_compute; reflexivity|].
+  split; [vm_compute; reflexivity|]. vm_compute. discriminate.
+Qed.
+
+Lemma key_crlf_refuted :
+  record_ok (field_names ex_cR) = false /\
+  fst (write_csv [ex_cR]) = [34; 97; 13; 10; 98; 34; 10; 49; 10; 50; 10]%N /\
+  cv_docs (fst (write_csv [ex_cR])) = ([[([97; 10; 98]%N, VInt64 1)]; [([97; 10; 98]%N, VInt64 2)]], CvOk) /\
+  cv_docs (fst (write_csv [ex_cR])) <> (table_docs (field_names ex_cR) (int_rows [ex_cR]), CvOk).
+Proof.
+  split; [vm_compute; reflexivity|]. split; [vm_compute; reflexivity|].
+  split; [vm_compute; reflexivity|]. vm_compute. discriminate.
 Qed.
